@@ -4,7 +4,8 @@ Confirms a seeded change (/verif/seeded/<name>/: patch.diff, demo.py, meta.json)
 
   tools/seeded.py <name> [--checks C01,C05] [--tier quick] [--no-confirm]
 
-In a scratch git worktree of /repo's HEAD (removed afterwards, /repo itself is never touched):
+In a scratch git worktree of /repo's HEAD - or of the commit the change was written against (meta.json: base) if it no
+longer applies to HEAD - (removed afterwards, /repo itself is never touched):
   1. the demonstration passes (exit 0) on the unchanged tree,
   2. the patch applies, the repository's test suite still passes with it,
   3. the demonstration fails (exit != 0) on the changed tree,
@@ -43,7 +44,14 @@ def main():
     checks = args.checks.split(",") if args.checks else [meta["property"]]
     wt = tempfile.mkdtemp(prefix="ahb-seeded-")
     os.rmdir(wt)
+    # the scratch tree is /repo's HEAD if the change still applies there, else the commit it was written against
+    base = "HEAD"
     subprocess.run(["git", "-C", "/repo", "worktree", "add", "--detach", "-q", wt, "HEAD"], check=True)
+    if run(["git", "-C", wt, "apply", "--check", patch]).returncode != 0 and meta.get("base"):
+        subprocess.run(["git", "-C", "/repo", "worktree", "remove", "--force", wt], check=False)
+        base = meta["base"]
+        subprocess.run(["git", "-C", "/repo", "worktree", "add", "--detach", "-q", wt, base], check=True)
+        print(f"(the change no longer applies to HEAD; using its base {base[:8]})")
     status = 0
     try:
         env = dict(os.environ, PYTHONPATH=os.path.join(wt, "src"), PYTHONHASHSEED="0")
@@ -79,6 +87,7 @@ def main():
                 "caught": res.returncode == 1,
                 "wall_s": round(time.time() - start, 1),
                 "first_violation": " ".join(lines[:2])[:500],
+                "tree": base,
             }
             print(f"{check} ({args.tier}): exit {res.returncode} in {time.time() - start:.0f}s  {' '.join(lines[:2])[:300]}")
             if res.returncode == 2:
